@@ -206,6 +206,12 @@ class GattLayer(Layer):
                 raise ConnectionLostException(None)
             try:
                 msg = self.__queue.get(block=True,timeout=timeout/10.0)
+                if isinstance(msg, GattErrorResponse) and msg.request in (
+                        BleAttOpcode.WRITE_COMMAND, BleAttOpcode.SIGNED_WRITE_COMMAND):
+                    # A command is never answered, so no procedure ever waits for
+                    # its outcome: an Error Response a peer sends for one anyway
+                    # must not be taken as the answer of the pending request.
+                    continue
                 if isinstance(msg, message_clazz) or isinstance(msg, GattErrorResponse):
                     return msg
             except Empty:
